@@ -171,6 +171,7 @@ def run(tier):
     enc = {e["id"]: e for e in recs.get("ENC", [])}
     out = os.path.join(d, "real.ndjson")
     p = subprocess.run([C.TSGV, "jsonout", C.CORPUS_PY, gpath, out], stdout=subprocess.PIPE, stderr=subprocess.DEVNULL, text=True, timeout=3000)
+    C.killed_from_outside(p.returncode)
     if p.returncode != 0:
         V.violation("process", {"property": PROP, "detail": "the serialising process died with status %d" % p.returncode}, {"observed": "abort"})
         real = {}
